@@ -175,6 +175,16 @@ func genStdSession(rs uint64, prop string, o stdOpts) *Session {
 			case 1:
 				op.TimeoutUS = sc.TimeoutOpsUS * 4 // override larger
 			}
+			if template != nil && r.IntN(2) == 0 {
+				// the shape "a configuration step with a timeout of its own, later a plain command
+				// without one": what the first leaves behind must not reach the second
+				switch {
+				case i == 1 && op.Kind == "netconfigs":
+					op.TimeoutUS = sc.TimeoutOpsUS * 4
+				case i == len(template)-1:
+					op.TimeoutUS = 0
+				}
+			}
 		}
 		sc.Ops = append(sc.Ops, op)
 		if op.Kind == "callbacks" && o.Timeouts && r.IntN(2) == 0 {
@@ -348,7 +358,7 @@ func runC05(env *Env, s Scenario) {
 			if op.Kind == "close" {
 				continue
 			}
-			if rec.Err != nil || rec.End-rec.Start > sc.EffTimeout(op)/4 {
+			if rec.Err != nil || rec.End-rec.Start > sc.EffTimeout(op)/2 {
 				env.Probe("base-infeasible")
 
 				return
@@ -456,6 +466,9 @@ func runC05(env *Env, s Scenario) {
 		judgeTimeout(i)
 	}
 	if victim >= 0 {
+		if sc.Ops[victim].TimeoutUS > 0 {
+			env.Probe("victim-with-its-own-timeout:" + sc.Ops[victim].Kind)
+		}
 		env.Probe("victim:" + sc.Ops[victim].Kind)
 	}
 	// recovery clause
@@ -495,6 +508,10 @@ func runC05(env *Env, s Scenario) {
 		}
 		if j := i + 1; j < len(sr.Recs) && !sr.Recs[j].Skipped && !sr.Recs[j].Panicked && sc.Ops[j].Kind != "close" {
 			env.Probe("second-stall-checked")
+			env.Probe("second-stall-victim:" + sc.Ops[victim].Kind)
+			if sc.Ops[victim].TimeoutUS > 0 && sc.Ops[j].TimeoutUS == 0 {
+				env.Probe("second-stall-after-a-victim-with-its-own-timeout:" + sc.Ops[victim].Kind)
+			}
 			if sr.Recs[j].Err == nil {
 				env.Fail("success-while-the-device-is-silent", "", "op %d (%s) reported success although the device had gone silent again before it", j, sc.Ops[j].Kind)
 			} else {
